@@ -12,6 +12,9 @@ namespace vf {
 typedef __int128 i128;
 typedef unsigned __int128 u128;
 
+// set when an X operation lost bits (the oracle's own precision was exceeded): the case must then not be judged
+inline bool x_overflowed = false;
+
 struct X {
     // sign-magnitude: mag is 256-bit unsigned little-endian; neg only if mag != 0
     uint64_t m[4] = {0, 0, 0, 0};
@@ -53,6 +56,7 @@ struct X {
             r.m[i] = (uint64_t)s;
             c = (unsigned)(s >> 64);
         }
+        if (c) x_overflowed = true;
         return r;
     }
     static X sub_mag(X const& a, X const& b)  // a >= b
@@ -93,9 +97,16 @@ struct X {
         return r;
     }
     friend X operator-(X const& a, X const& b) { return a + (-b); }
+    int bitlen() const
+    {
+        for (int i = 3; i >= 0; --i)
+            if (m[i]) return i * 64 + 64 - __builtin_clzll(m[i]);
+        return 0;
+    }
     friend X operator*(X const& a, X const& b)
     {
         X r;
+        if (a.bitlen() + b.bitlen() > 256) x_overflowed = true;
         for (int i = 0; i < 4; ++i) {
             uint64_t carry = 0;
             for (int j = 0; i + j < 4; ++j) {
@@ -120,6 +131,7 @@ struct X {
                 break;
             }
         if (s >= 256 || top + s > 255) {
+            x_overflowed = true;
             r.m[3] = 0x8000000000000000ull;
             return r;
         }
